@@ -46,9 +46,6 @@ type Summary struct {
 	Services []ServiceSum
 	Entities []EntitySum
 	Keys     []string
-	// AnyColl: the package declares an array or map of `any` somewhere: the schema reader refuses the
-	// image since a9e5f7d, the compiler accepts it (open finding api:err:collection-of-any)
-	AnyColl string
 	// BadList: a method whose request has a j5.list.v1.QueryRequest property and whose response is not
 	// list shaped (exactly one array, of objects): buildListRequest refuses the whole API
 	BadList string
@@ -390,7 +387,6 @@ func Expect(s *Spec) Summary {
 	sort.Strings(out.Keys)
 	out.BadDefault = c.badDefault
 	out.BadList = c.badList
-	out.AnyColl = s.anyCollection()
 	return out
 }
 
@@ -441,6 +437,10 @@ func (c *expCtx) listWalk(ms *MethodSum, cp cprop, pth []string, stack []string)
 		}
 	case "IO", "IU":
 		name := cp.parent + "_" + strcase.ToCamel(p.Name)
+		if contains(stack, name) {
+			// a hoisted inline object can be reached again from below itself through flattened fields
+			return
+		}
 		st := append(append([]string{}, stack...), name)
 		if p.T.K == "IO" {
 			for _, ch := range c.clientProps(cp.prefix, name, p.T.Props, nil) {
@@ -539,75 +539,4 @@ func serviceSum(sv *client_j5pb.Service) ServiceSum {
 		ss.Methods = append(ss.Methods, methodSum(m))
 	}
 	return ss
-}
-
-// anyCollection: the first property (path) of the package whose type is an array or map of `any`
-func (s *Spec) anyCollection() string {
-	var find func(at string, ps []*Prop) string
-	var inType func(at string, t *Type) string
-	inType = func(at string, t *Type) string {
-		if (t.K == "A" || t.K == "M") && t.Elem != nil && t.Elem.K == "any" {
-			return at
-		}
-		if t.Elem != nil {
-			if r := inType(at, t.Elem); r != "" {
-				return r
-			}
-		}
-		return find(at, t.Props)
-	}
-	find = func(at string, ps []*Prop) string {
-		for _, p := range ps {
-			if r := inType(at+"."+p.Name, p.T); r != "" {
-				return r
-			}
-		}
-		return ""
-	}
-	for _, sc := range s.Schemas {
-		if r := find(sc.Name, sc.Props); r != "" {
-			return r
-		}
-	}
-	for _, sv := range s.Services {
-		for _, m := range sv.Methods {
-			if r := find(m.Name+"Request", m.Req); r != "" {
-				return r
-			}
-			if r := find(m.Name+"Response", m.Resp); r != "" {
-				return r
-			}
-		}
-	}
-	for _, t := range s.Topics {
-		for _, m := range t.Msgs {
-			if r := find(t.Name, m.Props); r != "" {
-				return r
-			}
-		}
-	}
-	for _, en := range s.Entities {
-		if r := find(en.Name, en.Keys); r != "" {
-			return r
-		}
-		if r := find(en.Name, en.Data); r != "" {
-			return r
-		}
-		for _, ev := range en.Events {
-			if r := find(en.Name+"."+ev.Name, ev.Props); r != "" {
-				return r
-			}
-		}
-		for _, cs := range en.Commands {
-			for _, m := range cs.Methods {
-				if r := find(m.Name+"Request", m.Req); r != "" {
-					return r
-				}
-				if r := find(m.Name+"Response", m.Resp); r != "" {
-					return r
-				}
-			}
-		}
-	}
-	return ""
 }
